@@ -409,6 +409,40 @@ def gen_multi_prefixed_caps(r, tbl):
     return w, ro, "multi-prefixed:" + shape, secret
 
 
+def gen_edge_whitespace_caps(r, tbl):
+    """Unknown-format caps with CR, LF, CRLF or TAB at either edge (and inside): every byte must survive a directory.
+    (A trailing SPACE is the one thing _unpack_contents is documented to strip; not generated here.)
+    Returns (w, ro, label)."""
+    def body():
+        c = gen_other(r)
+        while c.label == "verify-cap":
+            c = gen_other(r)
+        core = c.s + b"-" + b32(rb(r, 6))
+        if r.random() < 0.3:
+            core = core[:3] + r.choice([b"\n", b"\r\n", b"\t"]) + core[3:]
+        lead, trail = r.choice([b"", b"\n", b"\r", b"\r\n", b"\t"]), r.choice([b"", b"\n", b"\r", b"\r\n", b"\t", b"\n\n"])
+        if not lead and not trail:
+            trail = b"\n"
+        return lead + core + trail
+    shape = r.choice(["ro-slot", "ro-slot", "rw+ro", "rw-slot-prefixed"])
+    if shape == "ro-slot":
+        return None, r.choice([b"", RO, IMM]) + body(), "edge-ws:ro-slot"
+    if shape == "rw+ro":
+        return body(), r.choice([b"", RO]) + body(), "edge-ws:rw+ro"
+    return r.choice([RO, IMM]) + body(), None, "edge-ws:rw-slot-prefixed"
+
+
+def expected_edge_caps(w, ro, immutable_dir=False):
+    """What an UnknownNode made from the caps of gen_edge_whitespace_caps must report (own reading of unknown.py):
+    mutable context -> (rw, ro with an ro. mark unless already marked); after an immutable directory -> (None, imm.+body)."""
+    if ro is None:
+        w, ro = None, w                      # a single marked cap in the write slot is the read cap
+    if immutable_dir:
+        body = ro[len(IMM):] if ro.startswith(IMM) else (ro[len(RO):] if ro.startswith(RO) else ro)
+        return None, IMM + body
+    return w, (ro if ro.startswith(RO) or ro.startswith(IMM) else RO + ro)
+
+
 def gen_outside_caps(r, tbl):
     """Caps outside the round-trip well-formedness: trailing spaces, nested or bare alleged prefixes."""
     c = gen_other(r)
